@@ -34,7 +34,12 @@ class El:
 
 
 class LayoutGen:
-    def __init__(self, rng, exact=True, use_prev=True, shapes=None, forms=None):
+    def __init__(self, rng, exact=True, use_prev=True, shapes=None, forms=None, decimal=False):
+        # decimal: coordinates and sizes in tenths / round numbers (not exact in binary floating point); implies exact=False,
+        # the caller compares with a tolerance for the 3-decimal output rounding
+        self.decimal = decimal
+        if decimal:
+            exact = False
         self.r = rng
         self.exact = exact
         self.use_prev = use_prev
@@ -49,9 +54,13 @@ class LayoutGen:
 
     # ------------------------------------------------------------------ helpers
     def g(self, lo=-30, hi=60, step=4):
+        if self.decimal:
+            step = 10
         return F(self.r.randint(lo * step, hi * step), step)
 
     def size(self):
+        if self.decimal:
+            return F(self.r.choice([10, 20, 30, 50, 100])) if self.r.random() < 0.4 else F(self.r.randint(0, 400), 10)
         return F(self.r.choice([0, 1, 2, 4, 6, 8, 10, 16, 20, 5, 3, 7]) * self.r.choice([1, 1, 1, 2]), self.r.choice([1, 1, 2]))
 
     def new_id(self):
@@ -133,11 +142,11 @@ class LayoutGen:
             if el is None:
                 continue
             ok = True
-            if self.exact and el.box is not None and el.children is None:
+            if (self.exact or self.decimal) and el.box is not None and el.children is None:
                 vals = list(el.box.tuple()) + [el.box.cx, el.box.cy, el.box.w / 2, el.box.h / 2]
                 if el.line:
                     vals += [el.line[0][0], el.line[0][1], el.line[1][0], el.line[1][1]]
-                ok = all(printable(v) for v in vals) and el.box.w >= 0 and el.box.h >= 0
+                ok = (self.decimal or all(printable(v) for v in vals)) and el.box.w >= 0 and el.box.h >= 0
                 if el.shape == "circle" and el.box.w != el.box.h:
                     ok = False
             if ok:
